@@ -19,7 +19,13 @@
      state: if the call returns normally then its whole effect was achieved —
      the pid reference names the (reported) cid and the cid's list names the
      pid; the reported cid and size are the data's.
-  Not proved: the roll-back after a failure for one-off plans in general (established by the fault sweep of this check on the real code and by
+   * `tag_object(p, c)` on an unbound pid under a ONE-OFF failure at each of the
+     fault sites of its fault-free run (both starting cases: c without a list, c
+     with a list not naming p; every store): it returns normally, or raises with
+     everything released, p still unbound and every list text well formed — and
+     the same call made again at once returns normally.
+  Not proved: that a one-off plan aimed anywhere else never fires, the roll-back
+  inside store_object's own placement phase, and one-off plans in general (established by the fault sweep of this check on the real code and by
   model/code agreement under every plan).
 -/
 import HSModel.Props.C09
@@ -27,6 +33,7 @@ import HSModel.Props.C10
 import HSModel.Proofs.FaultMeta
 import HSModel.Proofs.OkStore
 import HSModel.Proofs.OkDelete
+import HSModel.Proofs.RollbackAll
 namespace HS.C13
 variable (cfg : Config) (o : Oracle)
 
@@ -82,6 +89,44 @@ theorem store_object_success_means_bound (pid : SArg) (data : DataArg) (addition
 theorem delete_object_success_means_unbound (p : Str) (w w' : World) (v : Val)
     (h : Prog.run (deleteObject cfg o (.str p)) w = (.ok v, w')) : w'.st.pidRefs.get (o.hId p) = none :=
   delete_ok_inv cfg o p w w' v h
+
+/-- **one-off failures roll back** (c has no reference list): for every store in
+    which p is unbound and c has no list, and every fault site of the call's
+    fault-free run, a one-off failure there makes `tag_object(p, c)` either
+    return normally or raise with all identifiers released, p still unbound, all
+    list texts well formed, objects untouched, and the plan spent -/
+theorem one_off_failure_rolls_back_new_list (st : Store) (log : List Eff) (p c : Str)
+    (hp : checkStringOk p = true) (hc : checkStringOk c = true)
+    (h1 : st.pidRefs.get (o.hId p) = none) (h2 : st.cidRefs.get c = none) :
+    ∀ s ∈ tagSitesNew o p c, ∃ r w', (tagObject cfg o (.str p) (.str c)).run (planned st log s.1 s.2.1 s.2.2) = (r, w') ∧
+      RolledBack o p st r w' :=
+  tag_new_list_all cfg o st log p c hp hc h1 h2
+
+/-- **one-off failures roll back** (c has a list that does not name p) -/
+theorem one_off_failure_rolls_back_append (st : Store) (log : List Eff) (p c : Str) (ls : List Str)
+    (hp : checkStringOk p = true) (hc : checkStringOk c = true) (h1 : st.pidRefs.get (o.hId p) = none)
+    (h2 : st.cidRefs.get c = some (renderLines ls)) (hls : ∀ l ∈ ls, hasSpace l = false) (hnot : p ∉ ls) (hne : ls ≠ []) :
+    ∀ s ∈ tagSitesAppend o p c, ∃ r w', (tagObject cfg o (.str p) (.str c)).run (planned st log s.1 s.2.1 s.2.2) = (r, w') ∧
+      RolledBack o p st r w' :=
+  tag_append_all cfg o st log p c ls hp hc h1 h2 hls hnot hne
+
+/-- the two site lists are exactly the fault sites the fault-free run passes, in
+    order, with their occurrence numbers (nothing is left out) -/
+theorem fault_sites_complete (st : Store) (log : List Eff) (p c : Str) (hp : checkStringOk p = true)
+    (hc : checkStringOk c = true) (h1 : st.pidRefs.get (o.hId p) = none) :
+    (st.cidRefs.get c = none → sitesOfRun (tagObject cfg o (.str p) (.str c)) (calm st log) = tagSitesNew o p c) ∧
+    (∀ ls, st.cidRefs.get c = some (renderLines ls) → (∀ l ∈ ls, hasSpace l = false) → p ∉ ls →
+      sitesOfRun (tagObject cfg o (.str p) (.str c)) (calm st log) = tagSitesAppend o p c) :=
+  ⟨fun h2 => tag_sites_new_complete cfg o st log p c hp hc h1 h2,
+   fun ls h2 hls hnot => tag_sites_append_complete cfg o st log p c ls hp hc h1 h2 hls hnot⟩
+
+/-- **… and the pid can be tagged again at once**: after such a rolled-back
+    failure, the same call made again (the spent plan still in place) returns normally -/
+theorem retry_at_once_succeeds (st : Store) (p c : Str) (r : Except Exc Val) (w' : World)
+    (hp : checkStringOk p = true) (hc : checkStringOk c = true) (hnl : AllNl st.cidRefs)
+    (hrb : RolledBack o p st r w') (herr : ∀ v, r ≠ .ok v) :
+    ((tagObject cfg o (.str p) (.str c)).run w').1 = .ok .unit :=
+  retry_after_rollback cfg o st p c r w' hp hc hnl hrb herr
 
 /-- a one-off plan that has fired never fails another primitive -/
 theorem one_off_fires_once (f : Fault) (e : Ev) (hf : f.fired = true) (hp : f.persistent = false) :
